@@ -153,6 +153,7 @@ __strpdt_std(const char *str, char **ep)
 	struct dt_dt_s res = {DT_UNK};
 	struct strpdt_s d = {0};
 	const char *sp;
+	const char *mp;
 
 	if ((sp = str) == NULL) {
 		goto out;
@@ -201,16 +202,22 @@ try_time:
 		sp = str;
 		goto out;
 	} else if ((sp++, d.st.m = strtoi_lim(sp, &sp, 0, 59)) < 0) {
+		/* no minutes, no time, rewind like for the hour */
 		d.st.m = 0;
+		sp = str;
 		goto out;
 	} else if (*sp != ':') {
 		goto eval_time;
-	} else if ((sp++, d.st.s = strtoi_lim(sp, &sp, 0, 60)) < 0) {
+	} else if ((mp = sp++, d.st.s = strtoi_lim(sp, &sp, 0, 60)) < 0) {
+		/* not seconds, the time ends in front of the colon */
 		d.st.s = 0;
+		sp = mp;
 	} else if (*sp != '.') {
 		goto eval_time;
-	} else if ((sp++, d.st.ns = strtoi_lim(sp, &sp, 0, 999999999)) < 0) {
+	} else if ((mp = sp++, d.st.ns = strtoi_lim(sp, &sp, 0, 999999999)) < 0) {
+		/* not a fraction, the time ends in front of the dot */
 		d.st.ns = 0;
+		sp = mp;
 		goto eval_time;
 	}
 eval_time:
